@@ -31,6 +31,11 @@ func (q PathQuery) Find() (ssa.Instruction, bool) {
 		b *ssa.BasicBlock
 		i int
 	}
+	if q.Feasible == nil {
+		// paths that constant propagation from the starting point rules out are not paths: e.g. after an
+		// inlined bool helper, "r = true; break L" followed by "if r { return }" never falls through
+		q.Feasible = Analyze(fn, ReachOpts{Start: q.From})
+	}
 	start := pos{fn.Blocks[0], 0}
 	if q.From != nil {
 		b := q.From.Block()
